@@ -21,6 +21,7 @@ type Knobs struct {
 	ShortWrite   int
 	SendEAGAIN   int
 	ShortRead    int
+	RecvEAGAIN   int // a readv on a readable socket whose peer is still there reports EAGAIN once (spurious readiness)
 	ReadEINTR    int
 	EpollEINTR   int
 	EpollClip    int
@@ -552,6 +553,19 @@ func Readable(fd int) bool {
 	return pollNow(&p)
 }
 
+// dataAndPeerAlive: input is pending and the peer has neither closed nor shut down its sending side
+// (never disturb the reads that drain a connection after a hang-up).
+func dataAndPeerAlive(fd int) bool {
+	p := pollfd{fd: int32(fd), events: 1 | 0x2000 /* POLLIN|POLLRDHUP */}
+	for {
+		r, _, e := syscall.Syscall(syscall.SYS_POLL, uintptr(unsafe.Pointer(&p)), 1, 0)
+		if e == syscall.EINTR {
+			continue
+		}
+		return e == 0 && r > 0 && p.revents&1 != 0 && p.revents&(0x2000|0x10|0x8) == 0
+	}
+}
+
 func pollNow(p *pollfd) bool {
 	for {
 		r, _, e := syscall.Syscall(syscall.SYS_POLL, uintptr(unsafe.Pointer(p)), 1, 0)
@@ -615,6 +629,13 @@ func RawSyscall(trap, a1, a2, a3 uintptr) (uintptr, uintptr, syscall.Errno) {
 			return errRet, 0, syscall.EINTR
 		}
 		total := iovTotal((*syscall.Iovec)(unsafe.Pointer(a2)), cnt)
+		if K.RecvEAGAIN > 0 && dataAndPeerAlive(fd) && simrt.FaultChance(K.RecvEAGAIN) {
+			// readiness was reported and the read finds nothing: legal for a non-blocking socket
+			// (select(2), BUGS). The data stays; level-triggered epoll reports it again.
+			simrt.CountFault("recv_eagain")
+			ev("readv", fd, -1, syscall.EAGAIN, total)
+			return errRet, 0, syscall.EAGAIN
+		}
 		var r uintptr
 		var e syscall.Errno
 		clipped := 0
